@@ -20,7 +20,7 @@ run_demo() {
     # shell demos build and run the CLI inside their worktree: point them at this scratch worktree
     # (some demos locate the worktree as the parent of their own directory: run them from <wt>/SEEDED)
     mkdir -p $wt/SEEDED
-    sed -e "s#/tmp/seed[23]\?_C[0-9]*#$wt#g" "$sd/demo.sh" > $wt/SEEDED/demo.sh
+    sed -e "s#/tmp/seed[0-9]\?_C[0-9]*#$wt#g" "$sd/demo.sh" > $wt/SEEDED/demo.sh
     (cd $wt && env -u CARGO_TARGET_DIR bash $wt/SEEDED/demo.sh) >/tmp/wt_confirm_demo.log 2>&1; rc=$?
     rm -rf $wt/SEEDED
     return $rc
